@@ -1,28 +1,39 @@
-"""C03 A1: Nasa9.from_model must reproduce the model's H/RT and S/R at the reference temperature it uses, and track
-the source.  Exit 1 / prints WRONG if the fitted NASA-9 species is off."""
+"""C03 (shared state between fits): two zero-Cp species fitted one after the other with Shomate.from_model /
+from_data; each must reproduce ITS OWN reference enthalpy and entropy at T_ref.  Exit 1 / prints WRONG otherwise."""
 import sys
 import warnings
 import numpy as np
-from ase.build import molecule
 from pmutt.statmech import StatMech, presets
-from pmutt.empirical.nasa import Nasa9
+from pmutt.empirical.shomate import Shomate
 
 warnings.simplefilter('ignore')
-h2o = StatMech(name='H2O', atoms=molecule('H2O'), symmetrynumber=2, spin=0, potentialenergy=-14.22,
-               vib_wavenumbers=[3825.434, 3710.264, 1582.432], **presets['idealgas'])
 bad = False
-for (T_low, T_high, n_int) in ((200., 3000., 2), (100., 3000., 3), (300., 2000., 2)):
-    fit = Nasa9.from_model(name='H2O', model=h2o, T_low=T_low, T_high=T_high, n_interval=n_int, n_T=50)
-    worst_H = worst_S = 0.
-    for T in np.linspace(T_low, T_high, 41):
-        worst_H = max(worst_H, abs(fit.get_HoRT(T=T) - h2o.get_HoRT(T=T)))
-        worst_S = max(worst_S, abs(fit.get_SoR(T=T) - h2o.get_SoR(T=T)))
-    T_mean = (T_low + T_high) / 2.
-    dH = abs(fit.get_HoRT(T=T_mean) - h2o.get_HoRT(T=T_mean))
-    dS = abs(fit.get_SoR(T=T_mean) - h2o.get_SoR(T=T_mean))
-    print('window %5.0f-%5.0f K, %d intervals: |dH/RT|(T_mean)=%.2e |dS/R|(T_mean)=%.2e   max over window: '
-          '|dH/RT|=%.2e |dS/R|=%.2e' % (T_low, T_high, n_int, dH, dS, worst_H, worst_S))
-    if worst_H > 5e-3 or worst_S > 5e-3:
+
+# (a) from_model: two electronic-only (zero heat capacity) species, e.g. two surface sites / lattice references
+m1 = StatMech(name='A', potentialenergy=-1.5, spin=0, **presets['electronic'])
+m2 = StatMech(name='B', potentialenergy=-3.0, spin=1, **presets['electronic'])
+T_low, T_high = 300., 1200.
+T_ref = (T_low + T_high) / 2.
+s1 = Shomate.from_model(model=m1, name='A', T_low=T_low, T_high=T_high, n_T=40)
+h1_before, S1_before = s1.get_HoRT(T=T_ref), s1.get_SoR(T=T_ref)
+s2 = Shomate.from_model(model=m2, name='B', T_low=T_low, T_high=T_high, n_T=40)
+for sp, m in ((s1, m1), (s2, m2)):
+    dH = abs(sp.get_HoRT(T=T_ref) - m.get_HoRT(T=T_ref))
+    dS = abs(sp.get_SoR(T=T_ref) - m.get_SoR(T=T_ref))
+    print('from_model %s: H/RT(T_ref) fit %.6f source %.6f | S/R(T_ref) fit %.6f source %.6f'
+          % (sp.name, sp.get_HoRT(T=T_ref), m.get_HoRT(T=T_ref), sp.get_SoR(T=T_ref), m.get_SoR(T=T_ref)))
+    if dH > 1e-8 or dS > 1e-8:
         bad = True
-print('WRONG: fitted NASA-9 species does not track / anchor to the source model' if bad else 'OK')
+print('species A right after its own fit: H/RT(T_ref) = %.6f, S/R(T_ref) = %.6f' % (h1_before, S1_before))
+
+# (b) from_data, every fitting unit
+T = np.linspace(200., 900., 15)
+for units in ('J/mol/K', 'cal/mol/K', 'eV/K'):
+    a = Shomate.from_data(name='a', T=T, CpoR=np.zeros(15), T_ref=500., HoRT_ref=-10., SoR_ref=2.5, units=units)
+    b = Shomate.from_data(name='b', T=T, CpoR=np.zeros(15), T_ref=350., HoRT_ref=-50., SoR_ref=7.5, units=units)
+    ha, sa = a.get_HoRT(T=500.), a.get_SoR(T=500.)
+    print('from_data %-9s first species: H/RT(500 K) = %.6f (given -10), S/R(500 K) = %.6f (given 2.5)' % (units, ha, sa))
+    if abs(ha + 10.) > 1e-8 or abs(sa - 2.5) > 1e-8:
+        bad = True
+print('WRONG: a fitted species lost its reference enthalpy/entropy when another species was fitted' if bad else 'OK')
 sys.exit(1 if bad else 0)
